@@ -62,6 +62,12 @@ def geometries(rng, polys, n):
 
     def box(x0, y0, x1, y1):
         return [(x0, y0), (x1, y0), (x1, y1), (x0, y1)]
+    # always: shapes whose bounding box covers the whole model although they meet only part of it - a line from beyond one
+    # corner to beyond the opposite corner, an L along two sides, two far-apart points
+    x0_, x1_, y0_, y1_ = min(xs), max(xs), min(ys), max(ys)
+    out.append(('diagonal', [('line', [(x0_ - 1, y0_ - 1), (x1_ + 1, y1_ + 1.5)])]))
+    out.append(('ell', [('ring', [(x0_ - 1, y0_ - 1), (x1_ + 1, y0_ - 1), (x1_ + 1, y0_), (x0_, y0_), (x0_, y1_ + 1), (x0_ - 1, y1_ + 1)])]))
+    out.append(('far_points', [('point', (x0_ - 1, y0_ - 1)), ('point', (x1_ + 1, y1_ + 1))]))
     for _ in range(n):
         c = rng.choice(['box', 'box', 'cover', 'touch', 'triangle', 'line', 'point', 'multi', 'border', 'miss'])
         if c == 'box' and len(xs) > 1 and len(ys) > 1:
@@ -202,7 +208,8 @@ def run(ctx):
     n_ds = 20 if quick else 160
     exprs, plans = [], []
     for n in range(n_ds):
-        fam = rng.choice(['cf1d', 'cf2d', 'shoc_simple', 'shoc_standard', 'ugrid', 'ugrid'])
+        fams = ['cf1d', 'cf2d', 'shoc_simple', 'shoc_standard', 'ugrid', 'ugrid']
+        fam = fams[n] if n < len(fams) else rng.choice(fams)          # every convention in every run
         kw = {}
         if fam == 'ugrid' and n % 3 == 0:
             kw = dict(w=rng.randint(3, 5), h=rng.randint(3, 4))       # enough faces for the tree order to matter
